@@ -65,13 +65,13 @@ func (x *Exec) doCallVals(fr *Frame, st *State, call *ssa.CallCommon, instr ssa.
 	if call.IsInvoke() {
 		recv := fv
 		x.safetyOblige(fr, st, "nil", instr, "", nonNilTerm(recv))
-		// statically known dynamic type: resolve the method
-		if recv.Dyn != nil {
+		it := call.Value.Type()
+		// statically known dynamic type: resolve the method (unless the interface method has a contract)
+		if recv.Dyn != nil && x.prog.lookupTypeContract("iface", it, "."+call.Method.Name()) == nil {
 			if f := x.prog.ssa.LookupMethod(recv.Dyn.T, call.Method.Pkg(), call.Method.Name()); f != nil {
 				return x.callStatic(fr, st, f, append([]Val{*recv.Dyn}, args...), nil, instr, isGo)
 			}
 		}
-		it := call.Value.Type()
 		if x.prog.lookupTypeContract("iface", it, "."+call.Method.Name()) == nil {
 			if impl := x.prog.singleImpl(it); impl != nil {
 				if f := x.prog.ssa.LookupMethod(impl, call.Method.Pkg(), call.Method.Name()); f != nil {
